@@ -511,6 +511,10 @@ HARNESSES = [
 for _x in HARNESSES:
     _x.needs_c = True
 
+for _k in HARNESSES:
+    if _k.name in ('s_py_atomic',):
+        _k.stub_kernel = True      # drives private functions / extension points with stub containers (see vlib.runner)
+
 MANIFEST = {
     'engine': 'symx+irsym',
     'technique': 'symbolic execution: (1) Engine C - the LLVM IR of the current C lookup layer executed with reference counts as z3 terms '
